@@ -1191,8 +1191,28 @@ def remove_redundant_transpose_reduce_ir(graph: ir.Graph) -> None:
                     )
                     new_axes_val.const_value = ir.tensor(new_axes_arr)
 
-                    # Register as initializer
-                    graph.initializers.add(new_axes_val)
+                    # Emit the new axes as a Constant node in front of the reducer.
+                    # An initializer only works for the top-level graph: function
+                    # bodies cannot carry initializers (the value silently vanished
+                    # from the serialized function and the model did not load).
+                    # Constants of the top graph are lifted to initializers later.
+                    graph.insert_before(
+                        reducer,
+                        ir.Node(
+                            "",
+                            "Constant",
+                            inputs=[],
+                            outputs=[new_axes_val],
+                            attributes=[
+                                ir.Attr(
+                                    "value",
+                                    IRAttrType.TENSOR,
+                                    ir.tensor(new_axes_arr),
+                                )
+                            ],
+                            name=f"{axes_name}_const",
+                        ),
+                    )
 
                     reducer.replace_input_with(axes_input_idx, new_axes_val)
                 else:
